@@ -24,6 +24,8 @@ Definition classify (s : str) : numclass :=
   let unsigned := match s with 45%N :: r => r | 43%N :: r => r | _ => s end in
   if existsb (str_eqb (map ascii_lower unsigned)) INF_WORDS then Unknown else
   if negb (forallb float_alphabet s) then NonNum else
+  (* a float literal (other than inf/nan) starts, after its sign, with a digit or the point: "", "+", "e1", "_1" raise *)
+  if negb (match unsigned with c :: _ => is_digit c || N.eqb c 46 | [] => false end) then NonNum else
   let '(neg, body) := match s with 45%N :: r => (true, r) | _ => (false, s) end in
   let parts := split [46%N] body in
   match parts with
